@@ -66,20 +66,19 @@ GluedParts(P) == LET ts == FlatTokens(P) IN
 (*   {pep440_version}   DP: the derived pattern in use   v : the state     *)
 (***************************************************************************)
 RawRelease(text) == LET m == Match(PEP440, Lower(Strip(text, WS))) IN IF m.ok THEN m.caps.release ELSE <<>>
-Suffix(a) == (IF a.pre.has THEN a.pre.v[1] \o a.pre.v[2] ELSE <<>>)
-             \o (IF a.post.has THEN <<46,112,111,115,116>> \o a.post.v ELSE <<>>)
-             \o (IF a.dev.has THEN <<46,100,101,118>> \o a.dev.v ELSE <<>>)
-\* the same without the "." that canonical PEP 440 puts before post / dev (the statement asks for "short form followed by its number")
-SuffixNoDot(a) == (IF a.pre.has THEN a.pre.v[1] \o a.pre.v[2] ELSE <<>>)
-             \o (IF a.post.has THEN <<112,111,115,116>> \o a.post.v ELSE <<>>)
-             \o (IF a.dev.has THEN <<100,101,118>> \o a.dev.v ELSE <<>>)
+\* the tag segments in short form, each followed by its number; a "." may stand before a segment (canonical PEP 440 puts one before
+\* post and dev; the statement asks only for "short form followed by its number")
+Seg(has, letters, num, dot) == IF has THEN (IF dot THEN <<46>> ELSE <<>>) \o letters \o num ELSE <<>>
+Suffixes(a) == { Seg(a.pre.has, IF a.pre.has THEN a.pre.v[1] ELSE <<>>, IF a.pre.has THEN a.pre.v[2] ELSE <<>>, d1)
+                 \o Seg(a.post.has, <<112,111,115,116>>, IF a.post.has THEN a.post.v ELSE <<>>, d2)
+                 \o Seg(a.dev.has, <<100,101,118>>, IF a.dev.has THEN a.dev.v ELSE <<>>, d3) : d1 \in BOOLEAN, d2 \in BOOLEAN, d3 \in BOOLEAN }
 \* no v prefix; every dot-separated numeric component after the first without leading zeros; short tag followed by its number
 NormalForm(u) ==
   LET a == ParseVer(u) IN
   /\ a.pep /\ ~a.local.has
   /\ LET rel == RawRelease(u) comps == SplitOn(rel, {46}) IN
      /\ \A k \in 2..Len(comps) : comps[k] = DropZeros(comps[k])
-     /\ \E sfx \in {Suffix(a), SuffixNoDot(a)} : u = (IF a.epoch # <<48>> THEN a.epoch \o <<33>> ELSE <<>>) \o rel \o sfx
+     /\ \E sfx \in Suffixes(a) : u = (IF a.epoch # <<48>> THEN a.epoch \o <<33>> ELSE <<>>) \o rel \o sfx
 SameVersion(u, t) ==
   LET a == ParseVer(u) b == ParseVer(t) IN
   /\ a.pep /\ b.pep /\ PepCmp(a, b) = 0
